@@ -796,6 +796,22 @@ def molecules(rnd, tier, max_n_quick=4, max_n_thorough=5, per_graph=1):
                 edges.append([i, j])
                 used.update((i, j))
         out.append((atoms, edges))
+    # several identical small fragments (2 HCl, 3 H2, 2 OH + 2 HBr, a labelled pair): every multi-atom class consists of terminal atoms only,
+    # and which terminal atom is bonded to which is not determined by the classes
+    for frag, k in ((("H", "Cl"), 2), (("H", "Cl"), 3), (("H", "H"), 3), (("O", "H"), 2), (("D", "Br"), 2)):
+        atoms, edges = [], []
+        for _c in range(k):
+            edges.append([len(atoms), len(atoms) + 1])
+            atoms += [({"sym": "H", "mass": 2} if x == "D" else {"sym": x}) for x in frag]
+        if rnd.random() < .5:
+            edges += [[len(atoms), len(atoms) + 1], [len(atoms) + 1, len(atoms) + 2]]
+            atoms += [{"sym": "C"}, {"sym": "C"}, {"sym": "O"}]
+        out.append((atoms, edges))
+    # equivalent atoms whose labels differ in kind but not in number: one carries only mass=k, its mate only rad=k (k = 1, 2, 3)
+    for k in (1, 2, 3):
+        out.append(([{"sym": "C"}] + [{"sym": "H", "mass": k}, {"sym": "H", "rad": k}, {"sym": "H"}, {"sym": "H"}], [[0, 1], [0, 2], [0, 3], [0, 4]]))
+        out.append(([{"sym": "H", "mass": k}, {"sym": "H", "rad": k}], []))
+        out.append(([{"sym": "O"}, {"sym": "H", "rad": k}, {"sym": "H", "mass": k}], [[0, 1], [0, 2]]))
     for name, (n, edges) in SYMMETRIC.items():
         for variant in range(2 if tier == "quick" else 4):
             atoms = [{"sym": "C"} for _ in range(n)]
@@ -812,7 +828,7 @@ def gen_pipeline(T, kind, tier, seed, budget, out: Outcome):
     mols = molecules(rnd, tier)
     rnd.shuffle(mols)
     out.rule = ("all simple graphs with n<=%d atoms over {C,O,H} with random isotope/radical labels, plus symmetric skeletons (K4, C6, cube, prism, "
-                "Petersen, 2xC3, K3,3) with 0-3 labelled atoms; each with all n! relabelings (n<=4) or 6 random ones, random listing order, bond "
+                "Petersen, 2xC3, K3,3) with 0-3 labelled atoms, records of 2-3 identical diatomic fragments, equivalent atoms labelled mass=k / rad=k; each with all n! relabelings (n<=4) or 6 random ones, random listing order, bond "
                 "orientation and bond order. Non-trivial = distinct (molecule, relabeling) pairs with a non-identity relabeling or order." % (4 if tier == "quick" else 5))
     for atoms, edges in mols:
         n = len(atoms)
@@ -975,6 +991,10 @@ def respellings(rnd, s):
         yield "swap endpoints", parts[0] + "/" + "".join(t2) + tail(blocks)
         yield "repeat tuple", parts[0] + "/" + "".join(tuples + [tuples[k]]) + tail(blocks)
         yield "repeat swapped tuple", parts[0] + "/" + "".join([f"({b}-{a})"] + tuples) + tail(blocks)
+        # heavy repetition: a tuple may be repeated any number of times (more tuples than there are atom pairs)
+        yield "repeat one tuple 30 times", parts[0] + "/" + "".join(tuples + [tuples[k], f"({b}-{a})"] * 15) + tail(blocks)
+        both = [t for tp in tuples for t in (tp, "(%s-%s)" % tuple(reversed(re.fullmatch(r"\((\d+)-(\d+)\)", tp).groups())))]
+        yield "every tuple three times in both orientations", parts[0] + "/" + "".join(both * 3) + tail(blocks)
     if len(blocks) > 1:
         b2 = blocks[:]
         rnd.shuffle(b2)
@@ -1021,7 +1041,7 @@ def gen_c11(T, tier, seed, budget, out: Outcome):
     rnd = random.Random(seed)
     t0 = time.time()
     out.rule = ("accepted strings = canonical strings of small-scope molecules and hand-written sentences; respelling operators: reorder tuples, swap "
-                "endpoints, repeat a tuple (either orientation), reorder / split attribute blocks, reorder properties, swap two indices of one element "
+                "endpoints, repeat a tuple (either orientation; once, 30 times, every tuple three times in both orientations), reorder / split attribute blocks, reorder properties, swap two indices of one element "
                 "block. Non-trivial = distinct (string, respelling) pairs with respelling != string.")
     sents = list(VALID_SENTENCES)
     for atoms, edges in molecules(rnd, tier)[: (60 if tier == "quick" else 400)]:
@@ -1221,7 +1241,7 @@ def gen_c06(T, tier, seed, budget, out: Outcome):
     rnd = random.Random(seed)
     t0 = time.time()
     out.rule = ("pairs of V3000/V2000 renderings of one molecule that differ in exactly one non-identity dimension: coordinates, bond types, charges, header "
-                "lines, index values, foreign keywords, CRLF vs LF, V2000 vs V3000. Non-trivial = distinct pairs with different text.")
+                "lines, index values, foreign keywords, CRLF vs LF, V2000 vs V3000, order and grouping of V2000 property lines. Non-trivial = distinct pairs with different text.")
     n = 150 if tier == "quick" else 5000
     for _ in range(n):
         if time.time() - t0 > budget or len(out.violations) >= 3:
@@ -1230,7 +1250,20 @@ def gen_c06(T, tier, seed, budget, out: Outcome):
         r1 = random.Random(rnd.random())
         base = molgen.render_v3000(random.Random(1), m, cuts=False, blank_runs=False, extra_kw=False, index_maps=False)
         dim = rnd.choice(["coordinates", "bond types", "charges", "header", "index values", "foreign keywords", "CRLF", "continuation/blank runs",
-                          "V2000 charge encoding", "comment line looking like a continued V30 line"])
+                          "V2000 charge encoding", "comment line looking like a continued V30 line", "V2000 property line order and grouping"])
+        if dim == "V2000 property line order and grouping":
+            # same identity data (radicals, masses) in both files; the charges, the order of the M CHG / M RAD / M ISO lines and the number of
+            # entries per line (1, 2 or 8: several lines of one keyword) differ
+            m2k = molgen.rand_mol_v2000(rnd, 10)
+            if rnd.random() < .3:
+                for a in m2k.atoms:
+                    a["rad"] = 2
+            mode = {"chg_lines": True, "stale_codes": rnd.random() < .5, "zeros": False, "extras": rnd.random() < .5}
+            ta = molgen.render_v2000(rnd, m2k, mode, max_per_line=rnd.choice([1, 2, 8]))
+            m3k = molgen.Mol([dict(a, chg=rnd.choice([0, 0, 1, -1, 2])) for a in m2k.atoms], m2k.bonds)
+            tb = molgen.render_v2000(rnd, m3k, mode, max_per_line=rnd.choice([1, 8]))
+            out.run(T, "c06", {"text_a": ta, "text_b": tb, "dim": dim}, (ta, tb))
+            continue
         if dim == "V2000 charge encoding":
             m2k = molgen.rand_mol_v2000(rnd, 8)
             for a in m2k.atoms:
